@@ -59,7 +59,7 @@ Proof. reflexivity. Qed.
 Lemma wf_fold ops : forall cl, wf cl -> wf (fold_left def_step ops cl).
 Proof.
   induction ops as [|o r IH]; intros cl W; cbn; [exact W|].
-  apply IH. destruct o; cbn; [apply wf_define; exact W | exact W | exact W | exact W].
+  apply IH. destruct o; cbn; [apply wf_define; exact W | exact W | exact W | exact W | exact W].
 Qed.
 
 Lemma wf_defs ops : wf (defs ops).
@@ -318,12 +318,34 @@ Proof.
   intros H. apply IH in H. cbn in H. destruct (rkey_eqb k (top, S v)); [destruct H | exact H].
 Qed.
 
+(* compiling a per-format method / switching the format of the call touches neither the classes nor the registries *)
+Lemma classes_mark codec vs x : classes (mark codec vs x) = classes x.
+Proof. unfold mark. destruct (codec || Nat.eqb (cur x) 0); reflexivity. Qed.
+
+Lemma regs_mark codec vs x : regs (mark codec vs x) = regs x.
+Proof. unfold mark. destruct (codec || Nat.eqb (cur x) 0); reflexivity. Qed.
+
+Lemma cur_mark codec vs x : cur (mark codec vs x) = cur x.
+Proof. unfold mark. destruct (codec || Nat.eqb (cur x) 0); reflexivity. Qed.
+
+Lemma mark_cur0 codec vs x : cur x = 0 -> mark codec vs x = x.
+Proof. intros Z. unfold mark. rewrite Z. rewrite Bool.orb_true_r. reflexivity. Qed.
+
+Lemma reg_sound_ext sites x y : classes y = classes x -> regs y = regs x -> reg_sound sites x -> reg_sound sites y.
+Proof. intros Ec Er RS k s t c K Hin. rewrite Ec. rewrite Er in Hin. eapply RS; eassumption. Qed.
+
 Section Dispatch.
   Variable acc : cls -> list nat -> verdict.
   Variable sites : list site.
 
   (* invariant carried through every (nested) call: same classes, all registries sound *)
   Definition inv (cl: list cls) (x: st) : Prop := classes x = cl /\ reg_sound sites x.
+
+  Lemma inv_mark cl codec vs x : inv cl x -> inv cl (mark codec vs x).
+  Proof.
+    intros [E RS]. split; [rewrite classes_mark; exact E|].
+    eapply reg_sound_ext; [apply classes_mark | apply regs_mark | exact RS].
+  Qed.
 
   Definition enter_ok (cl: list cls) (enter: st -> nat -> st * outcome) : Prop :=
     forall x1 c, inv cl x1 -> inv cl (fst (enter x1 c)).
@@ -335,8 +357,8 @@ Section Dispatch.
     intros W EO K OK [E RS]. unfold refill_retry.
     set (r' := refill (classes x0) s (get_reg k (regs x0))).
     set (rs := if codec then reset_nested top (built (classes x0) s) (regs x0) else regs x0).
-    assert (I': inv cl (St (classes x0) ((k, r') :: rs))).
-    { split; [exact E|]. intros k2 s2 t2 c2 K2 Hin. cbn in *. destruct (rkey_eqb k2 k) eqn:EQ.
+    assert (I': inv cl (mark codec (built (classes x0) s) (St (classes x0) ((k, r') :: rs) (comp x0) (cur x0)))).
+    { apply inv_mark. split; [exact E|]. intros k2 s2 t2 c2 K2 Hin. cbn in *. destruct (rkey_eqb k2 k) eqn:EQ.
       - apply rkey_eqb_eq in EQ. subst k2. rewrite K in K2. injection K2 as <-.
         apply refill_sound in Hin; [|rewrite E; exact W|rewrite E; exact OK].
         destruct Hin as [Hin|Hin]; [|exact Hin]. eapply RS; eassumption.
@@ -352,7 +374,7 @@ Section Dispatch.
   Proof.
     intros W EO K OK I. unfold field_body.
     destruct (reg_get t (get_reg k (regs x))) as [c|]; [|apply refill_retry_inv; assumption].
-    exact (EO _ c I).
+    destruct (has_method codec x c); [exact (EO _ c I) | apply refill_retry_inv; assumption].
   Qed.
 
   Lemma loop_body_inv cl enter : enter_ok cl enter -> forall vs x, inv cl x -> inv cl (fst (loop_body enter vs x)).
@@ -379,7 +401,7 @@ Section Dispatch.
     assert (I: inv (classes x) x) by (split; [reflexivity | exact RS]).
     destruct (s_field s).
     - destruct (assoc (s_fid s) inp) as [[t|]|]; [|exact I|exact I]. apply field_body_inv; assumption.
-    - apply loop_body_inv; assumption.
+    - apply loop_body_inv; [|exact I]. intros x1 c I1. apply EO, inv_mark. exact I1.
   Qed.
 
   Lemma decode1_inv x i inp present : wf (classes x) -> reg_sound sites x ->
@@ -402,12 +424,14 @@ Section Dispatch.
   Lemma reg_sound_step x o : wf (classes x) -> reg_sound sites x ->
     classes (fst (step acc sites x o)) = def_step (classes x) o /\ reg_sound sites (fst (step acc sites x o)).
   Proof.
-    intros W RS. destruct o as [ps tg tu rq ke | i inp present | l | i]; cbn [step].
+    intros W RS. destruct o as [ps tg tu rq ke | i inp present | l | f i inp present | i]; cbn [step].
     - split; [reflexivity|]. intros k s t c K Hin. cbn in *. apply carries_mono. eapply RS; eassumption.
     - pose proof (decode1_inv x i inp present W RS) as H.
       destruct (decode1 acc sites x i inp present) as [x' o]. exact H.
     - pose proof (decode_seq_inv l x [] W RS) as H.
       destruct (decode_seq acc sites x l []) as [x' o]. exact H.
+    - pose proof (decode1_inv (set_cur f x) i inp present W RS) as H.
+      destruct (decode1 acc sites (set_cur f x) i inp present) as [x' o]. exact H.
     - split; [reflexivity | exact RS].
   Qed.
 
@@ -418,8 +442,70 @@ Section Dispatch.
     induction ops as [|o r IH]; intros x W RS; cbn [fold_left]; [split; [reflexivity | exact RS]|].
     destruct (reg_sound_step x o W RS) as [E1 S1].
     assert (W1: wf (classes (fst (step acc sites x o)))).
-    { rewrite E1. destruct o; cbn; [apply wf_define; exact W | exact W | exact W | exact W]. }
+    { rewrite E1. destruct o; cbn; [apply wf_define; exact W | exact W | exact W | exact W | exact W]. }
     destruct (IH _ W1 S1) as [E2 S2]. split; [rewrite E2, E1; reflexivity | exact S2].
+  Qed.
+
+  (* the format of the running call: a dispatcher leaves it alone, DecodeF resets it - it is 0 between the calls *)
+  Definition keeps_cur (enter: st -> nat -> st * outcome) : Prop := forall x c, cur (fst (enter x c)) = cur x.
+
+  Lemma refill_retry_cur enter top codec k s t x0 : keeps_cur enter -> cur (fst (refill_retry enter top codec k s t x0)) = cur x0.
+  Proof.
+    intros KC. unfold refill_retry. destruct (crash_on_refill s); [cbn [fst]; rewrite cur_mark; reflexivity|].
+    destruct (reg_get t _) as [c|]; [rewrite KC | cbn [fst]]; rewrite cur_mark; reflexivity.
+  Qed.
+
+  Lemma field_body_cur enter top codec k s t x : keeps_cur enter -> cur (fst (field_body enter top codec k s t x)) = cur x.
+  Proof.
+    intros KC. unfold field_body. destruct (reg_get t _) as [c|]; [|apply refill_retry_cur; exact KC].
+    destruct (has_method codec x c); [apply KC | apply refill_retry_cur; exact KC].
+  Qed.
+
+  Lemma loop_body_cur enter : keeps_cur enter -> forall vs x, cur (fst (loop_body enter vs x)) = cur x.
+  Proof.
+    intros KC. induction vs as [|v vs IH]; intros x; cbn [loop_body]; [reflexivity|].
+    pose proof (KC x v) as H. destruct (enter x v) as [x1 o]. cbn [fst] in H.
+    destruct o; try (rewrite IH; exact H). exact H.
+  Qed.
+
+  Lemma dispatcher_cur : forall fuel top codec k s x inp present,
+    cur (fst (dispatcher acc sites fuel top codec k s x inp present)) = cur x.
+  Proof.
+    induction fuel as [|f IH]; intros top codec k s x inp present; cbn [dispatcher]; [reflexivity|].
+    destruct (negb (site_ok s (length (classes x)))); [reflexivity|].
+    set (enter := enter_with acc sites (fun k' s' x' => dispatcher acc sites f top codec k' s' x' inp present) top codec present).
+    assert (KC: keeps_cur enter).
+    { intros x1 c. unfold enter, enter_with. destruct (config_site sites c) as [[j sj]|]; [apply IH | reflexivity]. }
+    destruct (s_field s).
+    - destruct (assoc (s_fid s) inp) as [[t|]|]; [|reflexivity|reflexivity]. apply field_body_cur; exact KC.
+    - apply loop_body_cur. intros x1 c. rewrite KC. apply cur_mark.
+  Qed.
+
+  Lemma decode1_cur x i inp present : cur (fst (decode1 acc sites x i inp present)) = cur x.
+  Proof. unfold decode1. destruct (nth_error sites i); [apply dispatcher_cur | reflexivity]. Qed.
+
+  Lemma decode_seq_cur : forall l x done, cur (fst (decode_seq acc sites x l done)) = cur x.
+  Proof.
+    induction l as [|[[i inp] present] l IH]; intros x done; cbn [decode_seq]; [reflexivity|].
+    pose proof (decode1_cur x i inp present) as H. destruct (decode1 acc sites x i inp present) as [x1 o]. cbn [fst] in H.
+    destruct o; try exact H. rewrite IH. exact H.
+  Qed.
+
+  Lemma step_cur x o : cur x = 0 -> cur (fst (step acc sites x o)) = 0.
+  Proof.
+    intros Z. destruct o as [ps tg tu rq ke | i inp present | l | f i inp present | i]; cbn [step].
+    - exact Z.
+    - pose proof (decode1_cur x i inp present) as H. destruct (decode1 acc sites x i inp present). cbn [fst] in *. congruence.
+    - pose proof (decode_seq_cur l x []) as H. destruct (decode_seq acc sites x l []). cbn [fst] in *. congruence.
+    - destruct (decode1 acc sites (set_cur f x) i inp present). reflexivity.
+    - exact Z.
+  Qed.
+
+  Lemma final_cur ops : cur (final acc sites ops) = 0.
+  Proof.
+    unfold final. assert (G: forall x, cur x = 0 -> cur (fold_left (fun x o => fst (step acc sites x o)) ops x) = 0).
+    { induction ops as [|o r IH]; intros x Z; cbn [fold_left]; [exact Z|]. apply IH, step_cur, Z. }
+    apply G. reflexivity.
   Qed.
 
   Lemma st0_sound : reg_sound sites st0.
@@ -452,7 +538,7 @@ Section Dispatch.
     intros U C. unfold leaf, field_spec.
     assert (EQ: forall c', carries cl s c' t -> c' = c) by (intros c' C'; apply U; assumption).
     destruct (acc (nth c cl dummy_cls) present) eqn:V;
-      (split; [|split; [|split; [|split; [|split; [|split; [|split; [|split]]]]]]]);
+      (split; [|split; [|split; [|split; [|split; [|split; [|split; [|split; [|split]]]]]]]]);
       try discriminate;
       try (intros c'; split; [intros E; first [discriminate | injection E as <-; split; [exact C | exact V]]
                               | intros [C' V']; first [rewrite (EQ _ C') in V'; congruence | f_equal; symmetry; apply EQ; exact C']]);
@@ -462,12 +548,13 @@ Section Dispatch.
 
   Lemma field_spec_none cl s t present : (forall c, ~ carries cl s c t) -> field_spec acc cl s t present ONotFound.
   Proof.
-    intros NO. unfold field_spec. split; [|split; [|split; [|split; [|split; [|split; [|split; [|split]]]]]]].
+    intros NO. unfold field_spec. split; [|split; [|split; [|split; [|split; [|split; [|split; [|split; [|split]]]]]]]].
     - intros c. split; [discriminate|]. intros [C _]. exfalso. exact (NO c C).
     - intros c. split; [discriminate|]. intros [C _]. exfalso. exact (NO c C).
     - split; [intros _; exact NO | reflexivity].
     - discriminate.
     - discriminate.
+    - intros c. split; [discriminate|]. intros [C _]. exfalso. exact (NO c C).
     - intros c. split; [discriminate|]. intros [C _]. exfalso. exact (NO c C).
     - intros cs E. discriminate.
     - discriminate.
@@ -490,7 +577,7 @@ Section Dispatch.
     - assert (C: carries cl s c t).
       { apply reg_get_In in G'. unfold r' in G'. rewrite E in G'. apply refill_sound in G'; [|exact W|exact OK].
         destruct G' as [G'|G']; [|exact G']. rewrite <- E. eapply RS; eassumption. }
-      rewrite (EL _ c (P c C)). cbn [classes snd]. rewrite E. apply field_spec_of_leaf; assumption.
+      rewrite (EL _ c (P c C)). cbn [snd]. rewrite classes_mark. cbn [classes]. rewrite E. apply field_spec_of_leaf; assumption.
     - cbn [snd]. apply field_spec_none. intros c C.
       destruct (refill_complete _ _ (get_reg k (regs x0)) _ _ W C) as [c' E']. unfold r' in G'. rewrite E in G'. congruence.
   Qed.
@@ -502,6 +589,7 @@ Section Dispatch.
   Proof.
     intros W I K OK NC U P EL. unfold field_body.
     destruct (reg_get t (get_reg k (regs x))) as [c|] eqn:G; [|apply refill_retry_correct; assumption].
+    destruct (has_method codec x c); [|apply refill_retry_correct; assumption].
     destruct I as [E RS].
     assert (C: carries cl s c t) by (rewrite <- E; eapply RS; [exact K | apply reg_get_In; exact G]).
     rewrite (EL _ c (P c C)). cbn [snd]. rewrite E. apply field_spec_of_leaf; assumption.
@@ -614,9 +702,7 @@ Section Dispatch.
     (forall x1 c, snd (enter x1 c) <> OMissing) -> snd (refill_retry enter top codec k s t x0) <> OMissing.
   Proof.
     intros EN. unfold refill_retry. destruct (crash_on_refill s); [discriminate|]. destruct (reg_get t _) as [c|]; [|discriminate].
-    pose proof (EN (St (classes x0) ((k, refill (classes x0) s (get_reg k (regs x0)))
-        :: (if codec then reset_nested top (built (classes x0) s) (regs x0) else regs x0))) c) as H.
-    exact H.
+    apply EN.
   Qed.
 
   Lemma loop_body_nm enter : forall vs x, snd (loop_body enter vs x) <> OMissing.
@@ -640,7 +726,7 @@ Section Dispatch.
     destruct (s_field s) eqn:F; [|apply loop_body_nm].
     destruct (assoc (s_fid s) inp) as [[t|]|] eqn:A; [|discriminate|exfalso; exact (OWN eq_refl eq_refl)].
     unfold field_body. destruct (reg_get t (get_reg k (regs x))) as [c|]; [|apply refill_retry_nm; exact EN].
-    exact (EN x c).
+    destruct (has_method codec x c); [exact (EN x c) | apply refill_retry_nm; exact EN].
   Qed.
 
   Lemma decode1_not_missing x i inp present : keys_present inp -> snd (decode1 acc sites x i inp present) <> OMissing.
@@ -660,8 +746,8 @@ End Dispatch.
 Lemma field_spec_functional acc cl s t present o1 o2 :
   field_spec acc cl s t present o1 -> field_spec acc cl s t present o2 -> o1 = o2.
 Proof.
-  intros [I1 [R1 [N1 [M1 [B1 [K1 [Y1 [D1 X1]]]]]]]] [I2 [R2 [N2 [M2 [B2 [K2 [Y2 [D2 X2]]]]]]]].
-  destruct o1 as [c| | | |c|c|cs| |].
+  intros [I1 [R1 [N1 [M1 [B1 [K1 [A1 [Y1 [D1 X1]]]]]]]]] [I2 [R2 [N2 [M2 [B2 [K2 [A2 [Y2 [D2 X2]]]]]]]]].
+  destruct o1 as [c| | | |c|c|cs| | |c].
   - symmetry. apply I2. apply I1. reflexivity.
   - exfalso. apply M1. reflexivity.
   - symmetry. apply N2. apply N1. reflexivity.
@@ -671,6 +757,7 @@ Proof.
   - exfalso. exact (Y1 cs eq_refl).
   - exfalso. apply D1. reflexivity.
   - exfalso. apply X1. reflexivity.
+  - symmetry. apply A2. apply A1. reflexivity.
 Qed.
 
 (* same classes, same site settings, same tag, same other fields => same answer, whatever was decoded or created before *)
@@ -696,14 +783,16 @@ Definition no_nested (sites: list site) (cl: list cls) (s: site) : Prop :=
 Definition acceptsb (acc: cls -> list nat -> verdict) (cl: list cls) (present: list nat) (c: nat) : bool :=
   match acc (nth c cl dummy_cls) present with VAccept => true | _ => false end.
 
-Lemma loop_body_leaves acc sites present enter : enter_leaf acc sites present enter ->
-  forall vs x, (forall v, In v vs -> config_site sites v = None) ->
-  loop_body enter vs x = (x, match find (acceptsb acc (classes x) present) vs with Some c => OInst c | None => ONotFound end).
+Lemma loop_body_leaves acc sites present enter codec : enter_leaf acc sites present enter ->
+  forall vs x, cur x = 0 -> (forall v, In v vs -> config_site sites v = None) ->
+  loop_body (fun x1 v => enter (mark codec [v] x1) v) vs x
+  = (x, match find (acceptsb acc (classes x) present) vs with Some c => OInst c | None => ONotFound end).
 Proof.
-  intros EL. induction vs as [|v vs IH]; intros x H; cbn [loop_body find]; [reflexivity|].
+  intros EL. induction vs as [|v vs IH]; intros x Z H; cbn [loop_body find]; [reflexivity|].
+  rewrite (mark_cur0 codec [v] x Z).
   rewrite (EL x v (H v (or_introl eq_refl))). unfold leaf, acceptsb at 1.
   destruct (acc (nth v (classes x) dummy_cls) present); try reflexivity;
-    (rewrite IH; [reflexivity | intros w Hw; apply H; right; exact Hw]).
+    (rewrite IH; [reflexivity | exact Z | intros w Hw; apply H; right; exact Hw]).
 Qed.
 
 Theorem nofield_correct acc sites pre i s inp present :
@@ -716,7 +805,8 @@ Proof.
   pose proof (wf_defs pre) as W.
   pose proof (final_classes acc sites pre) as CL.
   cbn [step]. unfold decode1. rewrite Hs. cbn [dispatcher]. rewrite CL. rewrite OK. cbn [negb]. rewrite Hf.
-  rewrite (loop_body_leaves acc sites present _ (enter_with_leaf acc sites _ _ _ present)).
+  rewrite (loop_body_leaves acc sites present _ _ (enter_with_leaf acc sites _ _ _ present)).
+  2:{ apply final_cur. }
   2:{ intros v Hv. apply NN. apply variants_spec; assumption. }
   rewrite CL. eexists. split; [reflexivity|].
   set (p := acceptsb acc (defs pre) present).
